@@ -50,6 +50,7 @@ struct Result {
     uint64_t write_shared_locations = 0;   // bytes written by one thread and touched by another
     uint64_t sync_ops = 0, atomic_ops = 0, pseudo_writes = 0, spin_yields = 0;
     std::string abort_what;
+    size_t stack_used_max = 0; int stack_used_thread = -1;    // deepest stack use of a worker below its thread function (bytes; saturates at 256 KiB)
     std::string bad_free;               // free()/realloc() of a pointer into some thread's stack / thread-local block
 };
 
